@@ -367,9 +367,84 @@ def _rust_and_ladder(ctx) -> None:
     ctx.count("rust_error_sites", len(errs))
 
 
+def _chain_tabulate(ctx, m, fn) -> bool | None:
+    """CHAIN.tabulated: parsing.parse -> parsing._parse run by the checker's interpreter with the three parsers, dateutil and the final normalisation replaced by stubs that answer or
+    refuse as the case says: the first parser that accepts (ISO 8601, ISO 8601 interval, common formats - in this order) gives the
+    result; a refusal (ValueError from the ISO parsers, ParserError from the common one) hands over; when all refuse, strict (the
+    default) raises ParserError and dateutil is not consulted, non-strict returns dateutil's answer, and a ValueError / OverflowError of
+    dateutil becomes ParserError."""
+    from ..rules import minieval
+    R = minieval.Raised
+    bad, n = [], 0
+    # through the entry point of the module (the options completed from the defaults; an error of dateutil may be turned into ParserError there)
+    entry = m.func("parse") if m.has_func("parse") else fn
+    try:
+        for iso in ("ok", "ValueError", "ParserError"):
+            for iv in ("ok", "ValueError", "ParserError"):
+                for common in ("ok", "ParserError"):
+                    for strict in (None, True, False):
+                        for du in ("ok", "ValueError", "OverflowError"):
+                            if (strict is not False or "ok" in (iso, iv, common)) and du != "ok":
+                                continue
+                            asked = []
+
+                            def stub(tag, how, opts_wanted=False):
+                                def f(text, **k):
+                                    asked.append(tag)
+                                    if opts_wanted and {"day_first", "year_first"} - set(k):
+                                        raise core.Unsupported(f"{tag} is called without the options")
+                                    if how != "ok":
+                                        raise R(f"raise reached: {how}", how)
+                                    return minieval.Stub(_from=tag)
+                                return f
+
+                            def dateutil(text, **k):
+                                asked.append("dateutil")
+                                if set(k) != {"dayfirst", "yearfirst"} or k["dayfirst"] != "DF" or k["yearfirst"] != "YF":
+                                    raise core.Unsupported("dateutil is called with other options")
+                                if du != "ok":
+                                    raise R(f"raise reached: {du}", du)
+                                return minieval.Stub(_from="dateutil")
+                            funcs = {st.name: st for st in m.top() if isinstance(st, ast.FunctionDef) and st.name not in ("parse_iso8601", "_parse_iso8601_interval", "_parse_common", "_normalize")}
+                            glob = {"parse_iso8601": stub("iso", iso), "_parse_iso8601_interval": stub("interval", iv), "_parse_common": stub("common", common, True),
+                                    "parser": minieval.Stub(parse=dateutil), "contextlib": minieval.Stub(suppress=None), "suppress": None,
+                                    "_normalize": lambda parsed, **o: parsed, "copy": minieval.Stub(copy=lambda d_: dict(d_), deepcopy=lambda d_: dict(d_)),
+                                    "ParserError": minieval.Stub(_exc_name="ParserError"), "ValueError": ValueError, "OverflowError": OverflowError, "TypeError": TypeError}
+                            opts = {"day_first": "DF", "year_first": "YF", **({} if strict is None else {"strict": strict})}
+                            n += 1
+                            label = f"ISO {iso}, interval {iv}, common {common}, strict={'default' if strict is None else strict}" + (f", dateutil {du}" if strict is False and "ok" not in (iso, iv, common) else "")
+                            try:
+                                got = ("value", getattr(minieval.call(entry, ["text"], opts, {**funcs, "$globals": glob}), "_from", "?"))
+                            except R as e:
+                                got = ("raises", e.exc_name)
+                            if iso == "ok":
+                                want, order = ("value", "iso"), ["iso"]
+                            elif iv == "ok":
+                                want, order = ("value", "interval"), ["iso", "interval"]
+                            elif common == "ok":
+                                want, order = ("value", "common"), ["iso", "interval", "common"]
+                            elif strict is not False:
+                                want, order = ("raises", "ParserError"), ["iso", "interval", "common"]
+                            else:
+                                want, order = (("value", "dateutil") if du == "ok" else ("raises", "ParserError")), ["iso", "interval", "common", "dateutil"]
+                            if got != want:
+                                bad.append(f"{label}: {got[0]} {got[1]} (expected: {want[0]} {want[1]})")
+                            elif asked != order:
+                                bad.append(f"{label}: the parsers are consulted in the order {asked} (expected {order})")
+    except (core.Unsupported, KeyError, TypeError, AttributeError, ValueError, IndexError, RecursionError) as e:
+        ctx.unverified("CHAIN.tabulated", "parsing._parse", f"outside the checker's interpreter: {type(e).__name__}: {str(e)[:160]}", m.loc(fn))
+        return None
+    ctx.ob("CHAIN.tabulated", "parsing._parse", not bad, f"{n} (parser outcomes, strict, dateutil outcome) cases: " + (f"wrong: {bad[:3]}" if bad else
+           "first accepting parser in the order ISO 8601 / interval / common; all refusing: ParserError when strict, else dateutil (its errors as ParserError)"), m.loc(fn))
+    if not bad:
+        ctx.established(("STRICT.chain", "STRICT.gate", "STRICT.errors"), "parsing._parse", "CHAIN.tabulated")
+    return not bad
+
+
 def _strict_gate(ctx) -> None:
     m = pmod("parsing")
     fn = m.func("_parse")
+    _chain_tabulate(ctx, m, fn)
     for c in core.calls(fn):
         if nun(c.func) == "parser.parse":
             facts = F.facts_at(c)
@@ -429,10 +504,10 @@ def _backend_agreement(ctx) -> None:
     """'whenever both back ends accept a string they return the same value': the structural sibling rules of C07
     (table searches, week dates, offsets) and C13 (durations) are the decidable part of this clause."""
     from . import C07, C13
+    ctx.step(C07._py_iso_tabulate, ctx)           # the Python date-time parser: the value denoted, or a ValueError - never another exception (first: it dominates the way the searches are written)
     C07._py_forward(ctx)
     C07._py_backward(ctx)
     ctx.step(C13._py_duration_tabulate, ctx)      # the Python duration parser yields the exact value (the compiled one: C13's MIR rules)
-    ctx.step(C07._py_iso_tabulate, ctx)           # the Python date-time parser: the value denoted, or a ValueError - never another exception
     try:
         mir = mirfront.load()
         from .. import mirsym
